@@ -144,6 +144,9 @@ func VerifC15Cap(writes int) {
 		}
 		status := verifrt.IntRange("status", 200, 599)
 		backendBody := verifPayload[:total]
+		// the first exchange may be cut short the way ReverseProxy does when the backend dies
+		// mid-body: the handler panics with http.ErrAbortHandler after what it has written
+		aborts := req == 0 && verifrt.Bool("firstExchangeAbortsMidBody")
 		rec := verifNewRecorder()
 		h := mw(http.HandlerFunc(func(w http.ResponseWriter, r *http.Request) {
 			w.Header().Set("Content-Type", "text/html")
@@ -153,10 +156,23 @@ func VerifC15Cap(writes int) {
 				w.Write([]byte(verifPayload[off : off+n]))
 				off += n
 			}
+			if aborts {
+				panic(http.ErrAbortHandler)
+			}
 		}))
 		r := verifRequest()
 		r.Header.Set("Accept-Encoding", "gzip")
-		h.ServeHTTP(rec, r)
+		func() {
+			defer func() {
+				if x := recover(); x != nil && x != http.ErrAbortHandler {
+					panic(x)
+				}
+			}()
+			h.ServeHTTP(rec, r)
+		}()
+		if aborts {
+			continue // the connection is gone; what matters is what the next exchange on this instance delivers
+		}
 		rec.finish()
 		verifrt.Assert(rec.status == status, "the client gets the backend's status (also after an over-cap response)")
 		if rec.wire.Get("Content-Encoding") == "gzip" {
